@@ -464,3 +464,9 @@ _add('C18', 'SCHEDULERS CREATED WHILE RUNNING (Props/C18D.lean; class SD = C18W.
      'records_timetable_prefix_dyn, transition_step_dyn, late_equals_early_shifted (the schedule of a scheduler created at tc is the schedule '
      'of the same scheduler created before the start, shifted by tc); necessity: schedNew_needed, idOK_needed. Creation of devices, groups and '
      'sensors is outside this class.')
+
+NOTES = NOTES + (' Known findings (known_findings.json): F1-F9, F11-F13, F15, F16 are genuine defects of the library repaired by minimal fix: commits in /repo '
+                 '(recorded as fixed; they suppress nothing); F14 (nested groups with batches crossing group boundaries) is recorded as known for C03 and C08: '
+                 'their checks print one KNOWN-FINDING line each and exit 0. Trusted base, per-property status and the seeded-change experiments: DESIGN.md '
+                 'sections 9, 11, 12. Evidence files carry coverage.proved_class_membership: how many compared scenarios start inside the class of each '
+                 'closed-world theorem.')
